@@ -39,7 +39,9 @@ def canon_names(maxacc):
 
 
 GARBAGE = ["H", "c", "h", "C-", "Cx", "C#x", "Cb!", "#", "b", "##", "bb", "1", " C", "C ", "CC", "C#C", "Cbb#x",
-           "c#", "é", "C♯", "0", "-", "C-4", "Do", "x" * 5, "B" * 3, "Ab#b#b#x"]
+           "c#", "é", "C♯", "0", "-", "C-4", "Do", "x" * 5, "B" * 3, "Ab#b#b#x",
+           # characters that mean something to a formatting layer an error message may pass through
+           "C%", "C%s", "%", "C%d", "100%", "C%23", "C{}", "{0}", "C\\", "C'", 'C"', "C\x00#"]
 
 
 def bound(tier, q, t):
